@@ -14,6 +14,7 @@ import copy
 import functools
 import inspect
 import io as _io
+import os
 
 import numpy as np
 
@@ -502,6 +503,11 @@ def result_fp(r):
         return ('fn', getattr(r, '__name__', type(r).__name__))
     if is_sample(r):
         return fpm.fp_any(r)
+    if type(r).__name__ == 'FCSFile':
+        return ('FCSFile', os.path.basename(str(r.infile)), fpm.canon(tuple(r.header)), fpm.canon(r.text),
+                fpm.array_fp(r.data), fpm.canon(r.analysis))
+    if isinstance(r, str) and os.sep in r and os.path.isabs(r):
+        return ('path', os.path.basename(r))          # the scratch directory differs from process to process
     if isinstance(r, tuple) and hasattr(r, '_fields'):
         return ('namedtuple', type(r).__name__, [(f, result_fp(getattr(r, f))) for f in r._fields])
     if isinstance(r, (list, tuple)):
